@@ -132,8 +132,10 @@ def run(ctx, anchors=None):
         gs = [astq.estr(c) for (c, t) in S.ast_guards(parser, x) if t]
         if any("!= 43" in g for g in gs) and any("!= 45" in g for g in gs):
             nosign = True      # neither '+' nor '-' (one `&&` condition or nested ifs)
-        for g in gs:
-            if g.startswith("!") and len(g) < 8:
+        for (c, t) in S.ast_guards(parser, x):
+            # `if (!f)` with f the looked-up flag word (hoisted locals are expanded by ast_guards: `!svf_get_flag(buf)`)
+            a_, neg = S.strip_not(c)
+            if t and neg and a_ is not None and (a_.get("k") == "ref" or (a_.get("k") == "call" and a_.get("cid") and prog.resolve(a_["cid"]))):
                 unknown = True
     ctx.inst(nosign, "R09.2", "reject-missing-sign", parser.loc(), "an entry without + or - reaches exit(1)")
     ctx.inst(unknown, "R09.2", "reject-unknown-name", parser.loc(), "an unknown flag name (lookup returned 0) reaches exit(1)")
